@@ -69,6 +69,9 @@ pub fn replay_other(prop: &str, kind: &str, case: &serde_json::Value) -> Result<
         let txt = String::from_utf8_lossy(&out.stdout).to_string();
         return Ok(txt.lines().filter(|l| l.starts_with("  C14/")).filter_map(|l| l.trim().split_once(": ").map(|(k, w)| (k.to_string(), w.to_string()))).collect());
     }
+    if kind == "mask-grid" {
+        return c08::replay(case);
+    }
     if kind == "fault" {
         return c19::replay(case, &std::env::var("VERIF_DIR").unwrap_or_else(|_| "/verif".to_string()));
     }
